@@ -155,6 +155,16 @@ Definition is_operations_rule (r : http_rule) : bool := starts_with OPERATIONS_P
 Definition ops_http_options (rules : list http_rule) : list (string * list printed_binding) :=
   map (fun r => (hr_selector r, map print_binding (usable (hr_bindings r)))) (filter is_operations_rule rules).
 
+(* path_prefix of the operations transport, in rest.py and rest_asyncio.py alike: Service.client_package_version, the
+   last segment of the service's package.  Without a GetOperation rule api_core polls  /<prefix>/<operation name>. *)
+Fixpoint last_segment (s : string) : string :=
+  match s with
+  | EmptyString => EmptyString
+  | String _ s' => if contains dot s then last_segment s' else s
+  end.
+Definition ops_path_prefix (pkg : string) : string := last_segment pkg.
+Definition default_poll_path (pkg operation_name : string) : string := "/" ++ ops_path_prefix pkg ++ "/" ++ operation_name.
+
 Definition pb_eqb (a b : printed_binding) : bool :=
   String.eqb (pb_method a) (pb_method b) && String.eqb (pb_uri a) (pb_uri b) && option_eqb String.eqb (pb_body a) (pb_body b).
 Definition http_options_eqb (a b : list (string * list printed_binding)) : bool :=
